@@ -19,6 +19,8 @@ _thermo = {}
 def thermo(pkg):
     if not _thermo:
         chems = {i: tmo.Chemical(i) for i in UNIVERSAL}
+        for i in UNIVERSAL:
+            tmo.Chemical(i, cache=True)          # the session's chemical cache holds standard chemicals of the same names
         _thermo['P'] = tmo.Thermo(tmo.Chemicals([chems['Water'], chems['Ethanol'], chems['Methanol']]), cache=False)
         _thermo['Q'] = tmo.Thermo(tmo.Chemicals([chems['Methanol'], chems['Ethanol'], chems['Water']]), cache=False)
         _thermo['R'] = tmo.Thermo(tmo.Chemicals([chems['Ethanol'], chems['Water']]), cache=False)
@@ -87,9 +89,13 @@ class World:
         for p, th in _thermo.items():
             if stream._thermo is th:
                 return p
-        ids = tuple(stream.chemicals.IDs)
+        # a loaded pickle has a package object of its own: recognise it by its content (chemicals in order, their reference phases,
+        # the mixture model), not only by the names
+        def sig(th):
+            return (tuple(th.chemicals.IDs), tuple(c.phase_ref for c in th.chemicals), type(th.mixture).__name__)
+        want = sig(stream._thermo)
         for p, th in _thermo.items():
-            if ids == tuple(th.chemicals.IDs):
+            if want == sig(th):
                 return p
         return '?'
 
@@ -444,7 +450,7 @@ class World:
         except Exception as e:
             exc = type(e).__name__
             extra = dict(msg=str(e)[:200])
-        obs = dict(exc=exc, behaves=True, res=[], resT=0, diff=0)
+        obs = dict(exc=exc, behaves=True, res=[], resT=0, diff=0, carried=True)
         obs.update(extra)
         if exc == NONE and op in ('copy', 'pickle', 'proxy', 'flow_proxy', 'link_with', 'unlink', 'copy_like'):
             try:
@@ -531,8 +537,17 @@ class World:
             if self._pickles % 2:
                 other = [p for p in sorted(self.universe['pkgs']) if thermo(p) is not src.thermo]
                 tmo.settings.set_thermo(thermo(other[0]))
-            S[a['d']] = pickle.loads(blob)
+            S[a['d']] = new = pickle.loads(blob)
             self.saved[a['d']] = None
+            # the pickle carries its own property package: the chemicals of the loaded stream are those of the source (a session
+            # may hold other chemicals of the same name, e.g. in the chemical cache), and so are its properties
+            def sig(ch):
+                return (ch.ID, ch.CAS, ch.phase_ref, ch.locked_state, float(ch.Hf or 0.), float(ch.Tb or 0.), float(ch.MW))
+            ok = [sig(c) for c in new.chemicals] == [sig(c) for c in src.chemicals]
+            if ok and not src.isempty():
+                h0, h1 = float(src.H), float(new.H)
+                ok = abs(h0 - h1) <= 1e-9 * max(abs(h0), abs(float(src.C)), 1e-300)
+            return dict(carried=bool(ok))
         elif op == 'copy_like':
             S[a['d']].copy_like(S[a['x']])
         elif op == 'proxy':
@@ -549,6 +564,12 @@ class World:
             return self.view_ops(op, a)
         elif op == 'reset_thermo':
             S[a['x']]._reset_thermo(thermo(a['pkg']))
+        elif op == 'flash_TP':
+            x = S[a['x']]
+            rows = {ph: x.imol[ph].to_array().copy() for ph in x.phases}
+            x.vle(T=float(T_OF.get(a['T'], a['T'])), P=float(P_OF.get(a['P'], a['P'])))
+            for ph, r in rows.items():
+                x.imol[ph] = r
         elif op == 'reassign':
             x = S[a['x']]
             T0 = x.T
@@ -625,6 +646,8 @@ def random_op(universe, rng, st, ops):
         return op, dict(x=x, P=rng.choice([100, 200, 50]))
     if op == 'reassign':
         return op, dict(x=x, q=rng.choice(['H', 'S']))
+    if op == 'flash_TP':
+        return op, dict(x=x, T=rng.choice([300, 320, 350]), P=rng.choice([100, 200, 50]))
     if op == 'set_phases':
         return op, dict(x=x, phs=rng.choice(PHASESETS))
     if op == 'set_phase':
